@@ -17,4 +17,8 @@ for k,p in enumerate(parts):
     open('/tmp/p%d.smt2'%k,'w').write(s)
     r=subprocess.run(['z3-new','-T:10','/tmp/p%d.smt2'%k],capture_output=True,text=True).stdout
     print(k,r.split('\n')[0])
-    if r.startswith('sat') and len(sys.argv)>2: print(p); print(r[:3000])
+    if r.startswith('sat') and len(sys.argv)>2:
+        print(p[:600]+' ...')
+        import re
+        for m in re.finditer(r'\(define-fun (\S+) \(\) (Int|Bool|String|Real)\s+([^\n]*)\)', r):
+            print('  ',m.group(1),'=',m.group(3)[:60])
